@@ -314,6 +314,9 @@ int exec_special_op(World &w, const Op &op) {
         unsigned cls = (unsigned) (op.sub % 8);
         for (size_t i = 0; i < cross.size(); i++) if (i % 8 == cls) triples.push_back(cross[i]);
         w.cnt.inc("version.cross_triples_total", cross.size());
+        w.cnt.inc("version.core_triples", core);
+        w.cnt.inc("version.cross_class_files." + std::to_string(cls));
+        w.cnt.inc("version.cross_class_triples." + std::to_string(cls), triples.size() - core);
         uint64_t opens = 0, cases = 0;
         for (size_t ti = 0; ti < triples.size(); ti++) {
             int x = triples[ti][0], y = triples[ti][1], z = triples[ti][2];
